@@ -17,7 +17,7 @@ import numpy as np
 from core import Driver, Failure, nl
 
 ID = "C04"
-PROOF_MODULES = ["PyribsProofs.C04"]
+PROOF_MODULES = ["PyribsProofs.C04", "PyribsProofs.C04b"]
 THEOREMS = [
     "Pyribs.C04.protocol",
     "Pyribs.C04.protocol_unchanged",
@@ -37,6 +37,9 @@ THEOREMS = [
     "Pyribs.C04.each_row_once",
     "Pyribs.C04.each_row_once_flat",
     "Pyribs.C04.modes_same_rows",
+    "Pyribs.C04b.add_mode_equivalence",
+    "Pyribs.C04b.add_mode_equivalence_history",
+    "Pyribs.C04b.nonvacuous",
     "Pyribs.C04.archives_before_emitters",
     "Pyribs.C04.told_own",
     "Pyribs.C04.asks_answered",
@@ -49,12 +52,7 @@ RULE = ("random sequences of ask / ask_dqd / tell / tell_dqd calls (about 30 % o
         "fields; every case is run a second time in the other add mode for the archive-contents comparison. A case "
         "is non-trivial when an accepted tell routes rows of at least two emitters with unequal batch sizes, or "
         "contains a rejected call made after rows were inserted; counted once per distinct op list")
-PARTIAL = [
-    "T04.4 (add_mode 'single' and 'batch' leave identical contents in elitist archives) is a statement about the "
-    "archive (C01: batch insertion = sequential insertion); the theorem here (modes_same_rows) shows the scheduler "
-    "submits the same rows in the same order in both modes, the equality of contents is checked on the real "
-    "GridArchive by the correspondence run (every case is executed in both modes)",
-]
+PARTIAL = []
 ASSUMPTIONS = [
     "a solution is the token (emitter, iteration, position); every per-row value handed to tell (objective, "
     "measures, extra fields, Jacobian) is derived injectively from (iteration, row position) by the harness",
@@ -67,8 +65,9 @@ ASSUMPTIONS = [
 ]
 TECHNIQUE = "Lean 4 model + theorems; lock-step correspondence with spy emitters and recording archives; log oracle"
 LEVEL_TEXT = ("proof (unbounded: any number of emitters, all batch sizes, both add modes, with/without result archive, "
-              "every call sequence legal or not) about the scheduler model; archive contents under the two add modes "
-              "(T04.4) by correspondence on the real GridArchive only; correspondence on generated call sequences")
+              "every call sequence legal or not) about the scheduler model; T04.4 composes modes_same_rows (same rows, "
+              "same order in both modes) with C04b.add_mode_equivalence (archive model of C01: one batch = the same rows "
+              "one by one); every generated case is also executed in both modes on the real archives")
 TRUSTED_EXTRA = [
     "the spy emitters (EmitterBase subclasses) and the recording archive subclasses of the harness",
     "the (emitter, iteration, position) / (iteration, row) encodings of solutions and per-row values",
